@@ -102,12 +102,12 @@ ASSUME = ["SimCluster is Kafka: fetch answers are cut at max_bytes mid-message l
 
 def run(tier, seed, only=None):
     if tier == "quick":
-        plans = [("logs-starts-1dev", configs(tier, MENU), (1, 1, 1)),
-                 ("logs-starts-2dev-light", configs(tier, MENU_LIGHT)[::3], (1, 1, 2)),
+        plans = [("logs-starts-2dev", configs(tier, MENU), (1, 1, 2)),
+                 ("logs-starts-3dev-light", configs(tier, MENU_LIGHT)[::3], (2, 1, 3)),
                  ("policies-restart", extra_configs(tier), (1, 1, 2))]
     else:
-        plans = [("logs-starts-2dev", configs(tier, MENU), (2, 1, 2)),
-                 ("logs-starts-3dev-light", configs(tier, MENU_LIGHT)[::3], (2, 2, 3)),
+        plans = [("logs-starts-3dev", configs(tier, MENU), (2, 1, 3)),
+                 ("logs-starts-4dev-light", configs(tier, MENU_LIGHT)[::3], (2, 2, 4)),
                  ("policies-restart", extra_configs(tier), (2, 2, 3))]
     if only:
         plans = [p for p in plans if p[0] in only]
